@@ -17,6 +17,29 @@ CLAIMED = {
             'bounded in size, not a proof for all sizes.',
             'real arithmetic instead of IEEE floats; sizes bounded as stated; integer-dtype inputs outside; numpy proxy/stubs '
             'of the symx engine and z3 are trusted; sat answers are only reported after float replay'),
+    'C02': ('DESIGN.md 4/C02',
+            'Real calc_rdm_crossnobis / calc_rdm_poisson_cv executed symbolically for every fold-balanced layout in the bound '
+            '(2-4 conditions, 2-4 folds, 1-2 repetitions, 1-2 channels, 3|5 row orders, label/fold label types, explicit and default '
+            'fold descriptor, no / one / per-fold precision, remove_mean); z3 proves each entry equal to the mean over ordered pairs of '
+            'distinct folds of the bilinear form on fold-wise means, for all real values. Row-order, fold-relabel and channel invariance and '
+            '"no within-fold products" follow from equality with that order-free oracle.',
+            'per-fold precisions only for 2 folds x 2 channels x 2 conditions or <=3 folds x 1 channel (3 folds x 2 channels: z3 unknown); '
+            'real arithmetic; np.linalg.inv modelled by fraction-form Gauss-Jordan with non-zero pivots assumed'),
+    'C03': ('DESIGN.md 4/C03',
+            'Real compare() executed symbolically: cosine/corr (3-4|5 conditions, stacks up to 2x2|3x2, RDMs/ndarray/1-d inputs) and the '
+            'whitened measures (sigma_k None, concrete variance vector / diagonal / full SPD matrix with symbolic data, symbolic variance '
+            'vector for 3 conditions) are proved equal to their definitions for all real RDM values; V=(C Sigma C\')^2 proved for symbolic '
+            'sigma; Spearman, rho-a, Kendall tau-a and tau-b (SciPy\'s own kendalltau run on symbolic values) are explored over every weak '
+            'ordering of both 3-entry vectors (169 paths) and compared with tie-exact definitions; symmetry, self-similarity 1, '
+            'condition-permutation invariance as identities; |sim|<=1 through a solver-checked Lagrange identity plus abstraction.',
+            'Bures measures outside (LAPACK eigh); rank measures only for 3 conditions; zero-norm / constant RDMs excluded by assumption; '
+            'scipy cg stubbed by its contract (exact solve); float results on concrete paths compared to 1e-9'),
+    'C09': ('DESIGN.md 4/C09',
+            'Real bootstrap_sample/_rdm/_pattern executed with every outcome of np.random.randint as an exhaustive choice point '
+            '(<=3|4 groups per factor, every grouping pattern, int/str labels, list/array descriptors); on every outcome each sample entry '
+            'is proved to be THE source variable of the same RDM and original condition pair (NaN exactly on copy pairs), descriptors '
+            'carried, returned indices = drawn groups, model resampling aligned; uniformity by counting over the complete outcome space.',
+            'uniformity is relative to the stub contract (randint uniform) and is a finite count, not a solver verdict; sizes bounded'),
 }
 
 NA = {
